@@ -178,6 +178,28 @@ Theorem C04_gapfill_1jan : forall (T : Type) (NT : Num T) (raw : Z -> Z -> wrec 
     = div (add (w_tavg (raw y (ylen y))) (w_tavg (raw (y + 1) 2))) two.
 Proof. exact @gapfill_1jan_lemma. Qed.
 
+(* optional columns of a year file — saturation deficit, sunshine hours and (since F34) the reference
+   evapotranspiration ET0 — as the model gets them for day i+1 of the year (WeatherModel.opt_year: the very pass
+   of replaceMissingValues over the column; tied bit for bit to the arrays of the real WetterK in C04TokCorr):
+   a present value unchanged, a sentinel between two present values their mean, a sentinel on the first or
+   last record of the file 0 *)
+Theorem C04_optional_value_kept : forall (T : Type) (NT : Num T) (none : T) (vals : list T) i,
+  (i < List.length vals)%nat -> (List.length vals <= 366)%nat ->
+  eqb (nth i vals zero) none = false -> nth i (opt_year none vals) zero = nth i vals zero.
+Proof. exact @optional_keep_lemma. Qed.
+
+Theorem C04_optional_gapfill : forall (T : Type) (NT : Num T) (none : T) (vals : list T) i,
+  (S (S i) < List.length vals)%nat -> (List.length vals <= 366)%nat ->
+  eqb (nth (S i) vals zero) none = true ->
+  eqb (nth i vals zero) none = false -> eqb (nth (S (S i)) vals zero) none = false ->
+  nth (S i) (opt_year none vals) zero = div (add (nth i vals zero) (nth (S (S i)) vals zero)) two.
+Proof. exact @optional_gapfill_lemma. Qed.
+
+Theorem C04_optional_edge_zero : forall (T : Type) (NT : Num T) (none : T) (vals : list T) i,
+  (i < List.length vals)%nat -> (List.length vals <= 366)%nat -> i = 0%nat \/ S i = List.length vals ->
+  eqb (nth i vals zero) none = true -> nth i (opt_year none vals) zero = zero.
+Proof. exact @optional_edge_lemma. Qed.
+
 (* the monthly precipitation factor used for a day is the factor of the civil month of that day, for
    every day of leap and non-leap years (the reader's own table is compared with this model on all
    366 + 365 day numbers through the three real readers on every run: C04TokCorr.preco_sweep) *)
@@ -431,6 +453,9 @@ Print Assumptions C04_missing_year_is_error.
 Print Assumptions C04_gapfill_inside.
 Print Assumptions C04_gapfill_31dec.
 Print Assumptions C04_gapfill_1jan.
+Print Assumptions C04_optional_value_kept.
+Print Assumptions C04_optional_gapfill.
+Print Assumptions C04_optional_edge_zero.
 Print Assumptions C04_loader_places_partial.
 Print Assumptions C04_alignment_partial_first_year.
 Print Assumptions C04_tok_explode_roundtrip.
